@@ -333,7 +333,8 @@ pub fn check(rec: &RunRecord) -> Vec<Violation> {
     let q = rec.quiescent_step;
     // An injected store fault makes the agent fail (that is the correct reaction): nothing about
     // convergence at quiescence can be demanded of such a run.
-    let clean_end = matches!(sc.ending, Ending::Stop | Ending::Timeout) && !rec.store_fault_fired;
+    // A run that was cut off by the step limit is incomplete: what must have happened "by the end" is not judged.
+    let clean_end = matches!(sc.ending, Ending::Stop | Ending::Timeout) && !rec.store_fault_fired && !rec.step_limit_hit;
 
     // Frames of the first incarnation grouped by (peer, lane).
     let mut by_pl: BTreeMap<(u32, String), Vec<&Frame>> = BTreeMap::new();
